@@ -4,6 +4,7 @@ import (
 	"fmt"
 	"go/token"
 	"go/types"
+	"sort"
 	"strings"
 
 	"golang.org/x/tools/go/ssa"
@@ -313,15 +314,21 @@ func (e *Enc) typeAssert(fr *Frame, x *ssa.TypeAssert) {
 		vn := e.freshConst(fr.pfx+san(x.Name())+"_v", e.d.sortOf(x.AssertedType))
 		e.assume("(=> " + okn + " (= " + vn + " " + res + "))")
 		e.assume("(=> (not " + okn + ") (= " + vn + " " + e.d.zero(x.AssertedType) + "))")
-		if isPointerShaped(x.AssertedType) {
-			// a typed nil pointer inside an interface is possible: no non-nil fact
+		if isPointerShaped(x.AssertedType) && e.spec.nonnilIface[typeStr(x.X.Type())] {
+			// trusted: AST interface values never hold typed nil pointers
+			e.assume("(=> " + okn + " (not (= " + vn + " 0)))")
+			e.usedTrusted["iface-nonnil "+typeStr(x.X.Type())] = true
 		}
 		fr.tup[x] = []string{vn, okn}
 		return
 	}
 	e.addOb(fr, "SAFE", "typeassert", x.Pos(), e.exprText(x.Pos(), "assert"), ok, false)
 	e.assumeG(ok)
-	e.setVal(fr, x, res)
+	n := e.setVal(fr, x, res)
+	if isPointerShaped(x.AssertedType) && e.spec.nonnilIface[typeStr(x.X.Type())] {
+		e.assumeG("(not (= " + n + " 0))")
+		e.usedTrusted["iface-nonnil "+typeStr(x.X.Type())] = true
+	}
 }
 
 func (e *Enc) next(fr *Frame, st *State, x *ssa.Next) *State {
@@ -588,6 +595,13 @@ func (e *Enc) invoke(fr *Frame, st *State, c *ssa.Call, recv string, args []stri
 	if n, ok := it.(*types.Named); ok && n.Obj().Pkg() != nil && e.w.mine[n.Obj().Pkg()] {
 		mine = true
 	}
+	if mine && e.w.pureIfaceMethod(it, m) {
+		all := append([]string{recv}, args...)
+		vals := append([]ssa.Value{cc.Value}, cc.Args...)
+		e.ufResult(fr, c, "IM_"+typeKey(it)+"_"+m.Name(), all, vals)
+		e.usedTrusted["pure-getter "+typeKey(it)+"."+m.Name()] = true
+		return st
+	}
 	if !mine {
 		pure := true
 		for _, a := range cc.Args {
@@ -644,6 +658,7 @@ func (e *Enc) inlineFn(fr *Frame, st *State, callee *ssa.Function, args []string
 			}
 			if ci, ok := fr.closureOf[argVals[i]]; ok {
 				nf.closureOf[p] = ci
+				e.closureUse(nf, p, ci)
 			}
 		}
 	}
@@ -658,13 +673,14 @@ func (e *Enc) inlineFn(fr *Frame, st *State, callee *ssa.Function, args []string
 	e.inlineStack = e.inlineStack[:len(e.inlineStack)-1]
 	e.cur = saveCur
 	if len(nf.rets) == 0 {
-		e.assumeG("false") // never returns
+		e.cur = "false" // never returns: what follows is unreachable
 		return nil, st
 	}
 	res := callee.Signature.Results()
 	if len(nf.rets) == 1 {
 		r := nf.rets[0]
-		e.assumeG(r.reach) // the call returns (panics are separate obligations)
+		// what follows the call runs only on paths where the callee returned
+		e.cur = r.reach
 		return r.vals, r.st
 	}
 	var conds []string
@@ -673,7 +689,9 @@ func (e *Enc) inlineFn(fr *Frame, st *State, callee *ssa.Function, args []string
 		conds = append(conds, r.reach)
 		sts = append(sts, r.st)
 	}
-	e.assumeG("(or " + strings.Join(conds, " ") + ")")
+	rr := e.freshConst(nf.pfx+"returned", "Bool")
+	e.define(rr, "(or "+strings.Join(conds, " ")+")")
+	e.cur = rr
 	var rs []string
 	for i := 0; i < res.Len(); i++ {
 		n := e.freshConst(nf.pfx+fmt.Sprintf("res%d", i), e.d.sortOf(res.At(i).Type()))
@@ -848,20 +866,27 @@ func (e *Enc) appendOp(fr *Frame, st *State, c *ssa.Call) *State {
 	return js
 }
 
-// closureEffects: a call that receives (or may reach) a closure of this frame may run it; the cells the
-// closure writes are havocked.
+// closureEffects: a call into code we do not inline may run any closure it receives now or received
+// earlier (it may have kept it); the heaps such closures write are havocked.
 func (e *Enc) closureEffects(fr *Frame, st *State, c *ssa.Call) *State {
 	for _, a := range c.Common().Args {
-		ci := fr.closureOf[a]
-		if ci == nil {
-			continue
+		if ci := fr.closureOf[a]; ci != nil {
+			e.escape(ci)
 		}
-		st = e.havocClosureCells(fr, st, ci)
 	}
-	for _, ci := range fr.escaped {
+	for _, ci := range e.escaped {
 		st = e.havocClosureCells(fr, st, ci)
 	}
 	return st
+}
+
+func (e *Enc) escape(ci *closureInfo) {
+	for _, x := range e.escaped {
+		if x == ci {
+			return
+		}
+	}
+	e.escaped = append(e.escaped, ci)
 }
 
 func (e *Enc) havocClosureCells(fr *Frame, st *State, ci *closureInfo) *State {
@@ -875,7 +900,12 @@ func (e *Enc) havocClosureCells(fr *Frame, st *State, ci *closureInfo) *State {
 		ns.id = e.n
 		return ns
 	}
+	var hs []string
 	for h := range stored {
+		hs = append(hs, h)
+	}
+	sort.Strings(hs)
+	for _, h := range hs {
 		ns := e.newState(sHavoc, st)
 		ns.heap = h
 		e.n++
@@ -885,16 +915,18 @@ func (e *Enc) havocClosureCells(fr *Frame, st *State, ci *closureInfo) *State {
 	return st
 }
 
-func (e *Enc) closureEscape(fr *Frame, x *ssa.MakeClosure) {
-	for _, r := range *x.Referrers() {
-		switch u := r.(type) {
-		case *ssa.Call:
-			continue
-		case *ssa.DebugRef:
+// closureUse: a closure value used by anything but a call escapes.
+func (e *Enc) closureUse(fr *Frame, v ssa.Value, ci *closureInfo) {
+	refs := v.Referrers()
+	if refs == nil {
+		return
+	}
+	for _, r := range *refs {
+		switch r.(type) {
+		case *ssa.Call, *ssa.DebugRef:
 			continue
 		default:
-			_ = u
-			fr.escaped = append(fr.escaped, fr.closureOf[x])
+			e.escape(ci)
 			return
 		}
 	}
